@@ -167,7 +167,7 @@ def find_inspections(crate, body, scope_fn=None):
                 others.append(p)
         if tok is None:
             continue
-        base = strip_sites(tok[2])
+        base = norm_index(strip_sites(tok[2]))
         is_boolish = dty == "bool" or (ls in ("captures", "find") and "regex" in callee)
         if not is_boolish:
             continue
@@ -295,13 +295,28 @@ def resolve_literals(crate, body, e, depth=0):
     return out
 
 
+def norm_index(e):
+    """`v[i]` read through Index or IndexMut is the same element"""
+    if not isinstance(e, tuple) or not e:
+        return e
+    if e[0] == "call" and last_seg(e[1]) in ("index_mut", "get_mut", "get_unchecked_mut"):
+        nm = {"index_mut": "index", "get_mut": "get", "get_unchecked_mut": "get_unchecked"}[last_seg(e[1])]
+        return ("call", "#" + nm, tuple(norm_index(a) for a in e[2]))
+    if e[0] == "call" and last_seg(e[1]) in ("index", "get", "get_unchecked") and ("Vec" in e[1] or "slice" in e[1] or "Index" in e[1]):
+        return ("call", "#" + last_seg(e[1]), tuple(norm_index(a) for a in e[2]))
+    if e[0] in ("const", "param", "var", "tmp", "capture"):
+        return e
+    return tuple(norm_index(x) if isinstance(x, tuple) and x and isinstance(x[0], str)
+                 else (tuple(norm_index(y) for y in x) if isinstance(x, tuple) else x) for x in e)
+
+
 def scope_fn_suffix(path):
     return path
 
 
 def norm_guard(atom, val):
     """normalise a branch fact into ('is_empty', X, bool) / ('eq', X, lit, bool) or None"""
-    a = atom
+    a = norm_index(atom)
     if a[0] == "call":
         ls = last_seg(a[1])
         args = [deep_peel(x) for x in a[2]]
@@ -441,7 +456,7 @@ def check_inspection(crate, insp, local_inspectors=()):
             return True
         return atom[0] == "var" and body.locals[atom[1]]["ty"] == "bool"
 
-    w = FactWalker(body, relevant)
+    w = TagWalker(body, relevant)
     states = w.run(start)
     bad = None
     n = 0
@@ -456,6 +471,67 @@ def check_inspection(crate, insp, local_inspectors=()):
         fs = ", ".join("%s=%s" % (render(a), v) for a, v in sorted(bad[1], key=str)) or "none"
         return False, "effect at %s reachable with tag facts {%s}" % (body.loc(bad[0]), fs), n
     return True, "%d effect block(s) guarded" % len(effects), n
+
+
+ACCESSORS = ("index_mut", "get_mut", "iter_mut", "last_mut", "first_mut", "deref_mut", "as_mut_slice")
+
+
+def _only_feeds_accessor(b, l):
+    """every use of temp local l is as an argument of an element accessor call (or a re-borrow that is)"""
+    import json as _json
+    uses = 0
+    for bi in b.reachable:
+        blk = b.blocks[bi]
+        for st in blk["stmts"]:
+            if st["k"] != "assign":
+                continue
+            txt = _json.dumps(st["rv"])
+            if ('"l": %d,' % l) in txt or ('"l": %d}' % l) in txt:
+                rv = st["rv"]
+                # re-borrow `_u = &mut *_t`
+                if rv["k"] == "ref" and rv["place"]["l"] == l and not st["place"]["p"]:
+                    if not _only_feeds_accessor(b, st["place"]["l"]):
+                        return False
+                    uses += 1
+                    continue
+                return False
+        t = blk["term"]
+        if t["k"] == "call":
+            for a in t["args"]:
+                pl = a.get("move") or a.get("copy")
+                if pl is not None and pl["l"] == l:
+                    if last_seg(b.callee(t)) not in ACCESSORS:
+                        return False
+                    uses += 1
+    return uses > 0
+
+
+class TagWalker(FactWalker):
+    """facts here are tests of a token's TAG (field 0).  Taking `&mut tokens` only to reach one element
+    (`tokens[i]`, `get_mut`, `iter_mut`) does not change any tag unless field 0 is assigned, so such a
+    borrow does not void what is known about tags.  (Not used for length / content facts.)"""
+
+    def kills(self, bb):
+        if bb not in self._kills:
+            b = self.b
+            ks = set(b.assigned_vars_in_block(bb))
+            blk = b.blocks[bb]
+            # `_t = &mut X` where _t is only ever handed to an element accessor
+            for st in blk["stmts"]:
+                if st["k"] == "assign" and st["rv"]["k"] == "ref" and st["rv"].get("mut") and not st["place"]["p"]:
+                    if _only_feeds_accessor(b, st["place"]["l"]):
+                        ks.discard(st["rv"]["place"]["l"])
+            # a direct write to field 0 of a token does kill
+            for st in blk["stmts"]:
+                if st["k"] == "assign":
+                    fields = [x for x in st["place"]["p"] if isinstance(x, dict) and "f" in x]
+                    if fields and fields[-1].get("bty") == mir.TOKEN_TY and fields[-1]["f"] == 0:
+                        ks.add(st["place"]["l"])
+                        root = mir.root_local_expr(strip_sites(b.local_expr(st["place"]["l"])))
+                        if root is not None:
+                            ks.add(root)
+            self._kills[bb] = ks
+        return self._kills[bb]
 
 
 def run_sites(ctx, rule, crate, fn_filter=None, cls_filter=None):
